@@ -547,7 +547,7 @@ def run(ck):
         rp = json.load(open(ck.replay))
         cases = [rp["case"]] if "case" in rp else []
     else:
-        n = 2500 if ck.quick else 120000
+        n = 12000 if ck.quick else 150000
         cases = corpus_cases("c11.txt")
         cases += [gen_history(ck.rng, ck.rng.randint(2, 22)) for _ in range(n)]
     ck.coq_props(extra_targets=["Extract/ExtractTendril.vo"])
